@@ -45,6 +45,7 @@ type JobResult struct {
 	Inconclusive []string
 	Unknowns     map[string]int
 	Covers       map[string]int
+	Cuts         map[string]int
 	Vars         map[string]bool
 	Cex          []*CexRec
 	Witnesses    []*CexRec
@@ -68,6 +69,12 @@ func (j *JobResult) noteUnknown(what string) {
 	j.Unknowns[what]++
 }
 func (j *JobResult) overflow(what string, r Result) {}
+func (j *JobResult) cut(why string) {
+	if j.Cuts == nil {
+		j.Cuts = map[string]int{}
+	}
+	j.Cuts[why]++
+}
 func (j *JobResult) cover(label string) {
 	if j.Covers == nil {
 		j.Covers = map[string]int{}
@@ -163,6 +170,13 @@ func (e *Engine) runJob(h *HarnessSpec, shard, nshards int, solverCmd []string, 
 			}
 		}
 		if r := recover(); r != nil {
+			defer func() {
+				ps := w.panicStack
+				if len(ps) > 6 {
+					ps = ps[len(ps)-6:]
+				}
+				res.Msg += " [in " + strings.Join(ps, " > ") + "]"
+			}()
 			switch x := r.(type) {
 			case Unsupported:
 				res.Status, res.Msg = "unsupported", x.msg
